@@ -43,7 +43,14 @@ def _expand(hist):
 
 def _check(hist):
     m = _MODEL
-    w = m.build(hist)
+    try:
+        w = m.build(hist)
+    except Exception as e:  # noqa: BLE001
+        # the history was produced on deep copies; replayed on freshly built objects it raises:
+        # report it as a finding of the operation that raises (never crash the search)
+        f = m.replay_exception(list(hist), e) if hasattr(m, "replay_exception") else \
+            {"key": "HARNESS:replay_raises:%s" % type(e).__name__, "msg": "history %s raises %r when replayed" % (hist, e), "detail": {}}
+        return list(hist), ("__raises__", tuple(hist)), [f]
     return list(hist), m.key(w), m.invariants(w, list(hist))
 
 
